@@ -73,6 +73,26 @@ type Sim struct {
 	PanicTxt string
 	killed   bool
 	Start    time.Time
+	// schedRaceOff: the scheduler goroutine has synchronisation events disabled
+	schedRaceOff bool
+}
+
+// SchedRaceOff makes the race detector ignore synchronisation events of the
+// calling (scheduler) goroutine from now on: its hand-offs to tasks and
+// synctest.Wait must not order the tasks' memory accesses. No-op without -race.
+func (s *Sim) SchedRaceOff() {
+	if !s.schedRaceOff {
+		s.schedRaceOff = true
+		raceDisable()
+	}
+}
+
+// SchedRaceOn undoes SchedRaceOff.
+func (s *Sim) SchedRaceOn() {
+	if s.schedRaceOff {
+		s.schedRaceOff = false
+		raceEnable()
+	}
 }
 
 // S is the simulation the hooks talk to. One at a time per process.
@@ -136,6 +156,12 @@ func (s *Sim) Spawn(name string, ord int, kind int, fn func()) *Task {
 	t := &Task{Name: name, Ord: ord, Kind: kind, resume: make(chan int), fn: fn}
 	t.state = StNew
 	ready := make(chan struct{})
+	// the go statement runs with the race detector listening, so that the
+	// fork edge parent -> child exists (the scheduler goroutine otherwise
+	// ignores synchronisation events)
+	if s.schedRaceOff {
+		raceEnable()
+	}
 	go func() {
 		taskInit(s, t)
 		close(ready)
@@ -143,6 +169,9 @@ func (s *Sim) Spawn(name string, ord int, kind int, fn func()) *Task {
 		park(t)
 		t.fn()
 	}()
+	if s.schedRaceOff {
+		raceDisable()
+	}
 	<-ready
 	return t
 }
@@ -156,15 +185,30 @@ func taskInit(s *Sim, t *Task) {
 
 func taskFinish(s *Sim, t *Task) {
 	if r := recover(); r != nil {
-		if s.Panic == nil {
-			s.Panic = r
-			buf := make([]byte, 8192)
-			n := runtime.Stack(buf, false)
-			s.PanicTxt = fmt.Sprintf("%v\n%s", r, buf[:n])
-		}
+		buf := make([]byte, 8192)
+		n := runtime.Stack(buf, false)
+		setPanic(s, r, fmt.Sprintf("%v\n%s", r, buf[:n]))
 	}
 	markDone(t)
 }
+
+//go:norace
+func setPanic(s *Sim, r any, txt string) {
+	if s.Panic == nil {
+		s.Panic = r
+		s.PanicTxt = txt
+	}
+}
+
+// Panicked reports whether a client task panicked.
+//
+//go:norace
+func (s *Sim) Panicked() bool { return s.Panic != nil }
+
+// PanicText returns the recovered panic and its stack.
+//
+//go:norace
+func (s *Sim) PanicText() string { return s.PanicTxt }
 
 //go:norace
 func markDone(t *Task) { atomic.StoreInt32(&t.state, StDone) }
